@@ -26,6 +26,22 @@ def SimSt.obsList (st : SimSt) : List (Comp × SimTime × List (Port × V)) :=
 def Static.IsFlat (S : Static) : Prop :=
   S.systems = [] ∧ ∃ L, S.levels = [L] ∧ L.name = ""
 
+/-- **a flat whole-simulation run is a `FlatRun`**, with extensional device functions (`DevExt`,
+the hypothesis of C08): the stronger form of `flat_sim_is_flatRun` below. -/
+theorem flat_sim_is_flatRun_ext (S : Static) (hflat : S.IsFlat) (L : Level) (hL : S.level "" = some L)
+    (orc : Oracle) (fuel : Nat) (t0 : SimTime) (now : Int) (sp : Speed) (steps nTicks : Nat)
+    (m m2 : MasterSt) (tr : TickRec) (ticks : List TickRec)
+    (h : masterInitial S orc fuel t0 now = .ok (m, tr))
+    (h2 : masterRun S orc fuel sp steps nTicks m [] [tr] = .ok (m2, ticks)) :
+    ∃ (devs : DevSeq V) (st : FlatSt V) (times : List SimTime),
+      FlatRun L.wiring devs t0 (ticks.length - 1) st times ∧
+      st.obs = m2.sim.obsList ∧ times = (ticks.map (·.time)).reverse ∧ ∀ k, DevExt (devs k) := by
+  obtain ⟨hsys, _⟩ := hflat
+  obtain ⟨fl, hrun, hR, htr, hext⟩ := Refine.masterInitial_flat hsys hL h
+  obtain ⟨devs, fl', times, hrun', hR', ht, hext'⟩ := Refine.masterRun_flat hsys hL sp steps nTicks m [tr]
+    _ 0 fl [t0] hrun hext hR rfl (by simp [htr]) h2
+  exact ⟨devs, fl', times, hrun', hR'.obs, ht, hext'⟩
+
 /-- **a flat whole-simulation run is a `FlatRun`.**  For a flat valid configuration, a completed
 initial tick followed by any number of callback ticks of the whole-simulation model is a run of the
 flat multi-tick system over the same wiring, for suitable (oracle-derived) device functions, with
@@ -39,11 +55,9 @@ theorem flat_sim_is_flatRun (S : Static) (hS : S.Valid) (hflat : S.IsFlat) (L : 
       FlatRun L.wiring devs t0 (ticks.length - 1) st times ∧
       st.obs = m2.sim.obsList ∧ times = (ticks.map (·.time)).reverse := by
   have _ := hS -- not needed: on a flat configuration the loop is in lockstep with the flat system
-  obtain ⟨hsys, _⟩ := hflat
-  obtain ⟨fl, hrun, hR, htr⟩ := Refine.masterInitial_flat hsys hL h
-  obtain ⟨devs, fl', times, hrun', hR', ht⟩ := Refine.masterRun_flat hsys hL sp steps nTicks m [tr]
-    _ 0 fl [t0] hrun hR rfl (by simp [htr]) h2
-  exact ⟨devs, fl', times, hrun', hR'.obs, ht⟩
+  obtain ⟨devs, st, times, h1, h2, h3, _⟩ :=
+    flat_sim_is_flatRun_ext S hflat L hL orc fuel t0 now sp steps nTicks m m2 tr ticks h h2
+  exact ⟨devs, st, times, h1, h2, h3⟩
 
 /-- the per-device observation sequences of corresponding logs -/
 theorem obsOf_of_obs_eq {st : FlatSt V} {sim : SimSt} (h : st.obs = sim.obsList) (d : Comp) :
@@ -115,5 +129,38 @@ theorem nested_inputs_synced (S : Static) (hS : S.Valid) (orc : Oracle) (fuel rf
   have hsy := synced_run _ (routerOK_of_wf _ hwf.1 hwf.2) (hS'.acyclic _ hLm) devs
     (hS'.ups_defined _ hLm) t0 _ st times hfr
   exact ⟨devs, st, times, hfr, hsy, hobs⟩
+
+/-- **C08 through system boundaries.**  The observations of a completed nested run are those of
+EVERY run of the flat system over the resolved wiring with the run's (extensional, oracle-derived)
+device functions — whatever the answer orders inside the ticks: there are device functions `devs`
+such that some `FlatRun` exists and every `FlatRun` of the same length has the nested run's tick
+times and, device by device, its observations. -/
+theorem nested_schedule_independent (S : Static) (hS : S.Valid) (orc : Oracle) (fuel rfuel : Nat)
+    (hr : S.resolveFuel ≤ rfuel) (t0 : SimTime) (now : Int) (sp : Speed) (steps nTicks : Nat)
+    (m m2 : MasterSt) (tr : TickRec) (ticks : List TickRec)
+    (h : masterInitial S orc fuel t0 now = .ok (m, tr))
+    (h2 : masterRun S orc fuel sp steps nTicks m [] [tr] = .ok (m2, ticks)) :
+    ∃ (devs : DevSeq V), (∀ k, DevExt (devs k)) ∧
+      (∃ st times, FlatRun (Wiring.fromInverse (S.flatInverse rfuel)) devs t0 (ticks.length - 1) st times) ∧
+      ∀ st times, FlatRun (Wiring.fromInverse (S.flatInverse rfuel)) devs t0 (ticks.length - 1) st times →
+        times = (ticks.map (·.time)).reverse ∧ ∀ d, ObsEq (m2.sim.obsOf d) (st.obsOf d) := by
+  obtain ⟨fuel', m', tr', m2', ticks', h', hrun', ht, _, hobs⟩ :=
+    nesting_transparent_run_fuel S hS orc fuel rfuel hr t0 now sp steps nTicks m m2 tr ticks h h2
+  obtain ⟨hS', hflat, hL⟩ := flatten_facts S hS orc fuel rfuel hr t0 now m tr h
+  obtain ⟨devs, st, times, hfr, hob, htm, hext⟩ := flat_sim_is_flatRun_ext (S.flatten rfuel) hflat _ hL
+    orc fuel' t0 now sp steps nTicks m' m2' tr' ticks' h' hrun'
+  have hlen : ticks.length = ticks'.length := by
+    have := congrArg List.length ht
+    simpa using this
+  rw [← hlen] at hfr
+  have hLm := (Static.level_some hL).1
+  have hwf := hS'.wiring_wf _ hLm
+  refine ⟨devs, hext, ⟨st, times, hfr⟩, fun st2 times2 hfr2 => ?_⟩
+  obtain ⟨e1, e2⟩ := schedule_independent _ (routerOK_of_wf _ hwf.1 hwf.2) (hS'.acyclic _ hLm) devs hext
+    t0 _ st st2 times times2 hfr hfr2
+  refine ⟨by rw [← e1, htm, ht], fun d => ?_⟩
+  have hd := hobs d
+  rw [← obsOf_of_obs_eq hob d] at hd
+  exact Refine.obsEq_trans hd (e2 d)
 
 end Tickit
